@@ -39,6 +39,77 @@ def check(model: Model, rep: Report, tier: str):
         w4(model, rep)
     with rep.isolated():
         w5(model, rep)
+    with rep.isolated():
+        w6(model, rep)
+
+
+def w6(model: Model, rep: Report):
+    """Sibling agreement inside IRectTransform: the centre computed from an aligned pivot and the side pivots computed from the centre name the same rectangle."""
+    rep.rule("C18.W6", "IRectTransform.center_pivot agrees with its siblings: for every alignment <V>_<H> (V in TOP/MID/BOT, H in LEFT/CENTER/RIGHT) the point that "
+                       "top_pivot / bot_pivot / left_pivot / right_pivot place on side V and side H of the centre is the pivot itself -- tabulated over all 9 members with "
+                       "symbolic pivot, width and height (where a block is drawn horizontally and on which row follows from this centre)")
+    K = model.cls("IRectTransform")
+    f = K.resolve("center_pivot")
+    if f is None:
+        raise AnalysisError("IRectTransform.center_pivot vanished")
+    ev = Evaluator(model, inline_methods=False)
+    members = ev.enum_members("TransformAlignment")
+    if not members or len(members) != 9:
+        raise AnalysisError(f"TransformAlignment members changed: {members}")
+    s = sym(f.self_name)
+    W, H = ("attr", s, "width"), ("attr", s, "height")
+    PX, PY = ("attr", ("attr", s, "pivot"), "x"), ("attr", ("attr", s, "pivot"), "y")
+    # side offsets from the sibling properties: <side>_pivot == center_pivot + Vec2D(x=dx, y=dy)
+    side = {}
+    for name in ("left", "right", "top", "bot"):
+        g = K.resolve(f"{name}_pivot")
+        if g is None:
+            raise AnalysisError(f"IRectTransform.{name}_pivot vanished")
+        rets = [n for n in ast.walk(g.node) if isinstance(n, ast.Return) and n.value is not None]
+        ok = len(rets) == 1 and isinstance(rets[0].value, ast.BinOp) and isinstance(rets[0].value.op, ast.Add)
+        vec = None
+        if ok:
+            l, r = rets[0].value.left, rets[0].value.right
+            for a, b in ((l, r), (r, l)):
+                if isinstance(a, ast.Attribute) and a.attr == "center_pivot" and isinstance(b, ast.Call) and ast.unparse(b.func).endswith("Vec2D"):
+                    vec = b
+        if vec is None:
+            raise AnalysisError(f"IRectTransform.{name}_pivot is not `self.center_pivot + Vec2D(...)` (shape not recognised)")
+        fr = Frame(g, g.module, {g.self_name: s}, K, 0)
+        kw = {k.arg: ev.expr(k.value, fr) for k in vec.keywords}
+        side[name] = (kw.get("x", lin({}, Fraction(0))), kw.get("y", lin({}, Fraction(0))))
+    zero = lin({}, Fraction(0))
+    ps = [p for p in PathEnumerator(Evaluator(model, inline_methods=False)).function_paths(f, self_cls=K) if p.exit == "return"]
+    PA = ("attr", s, "parent_alignment")
+    bad = []
+    n = 0
+    for m in members:
+        mp = {("eq", *sorted([PA, ("enum", "TransformAlignment", k)], key=repr)): (TRUE if k == m else FALSE) for k in members}
+        hit = []
+        for p in ps:
+            c = subst(p.cond, mp)
+            if c == TRUE:
+                hit.append(p)
+            elif c != FALSE:
+                raise AnalysisError(f"center_pivot: path condition not decided for {m}: {show(c)[:120]}")
+        if len(hit) != 1 or hit[0].value is None:
+            raise AnalysisError(f"center_pivot: {len(hit)} paths for alignment {m}")
+        v = subst(hit[0].value, {PA: ("enum", "TransformAlignment", m)})
+        if not (v[0] == "new" and v[1] == "Vec2D"):
+            raise AnalysisError(f"center_pivot: value for {m} is not a Vec2D: {show(v)[:100]}")
+        d = dict(v[2])
+        cx, cy = d.get("x"), d.get("y")
+        vpart, hpart = m.split("_", 1)
+        dx = {"LEFT": side["left"][0], "RIGHT": side["right"][0], "CENTER": zero}[hpart]
+        dy = {"TOP": side["top"][1], "BOT": side["bot"][1], "MID": zero}[vpart]
+        n += 1
+        okx = t_add(t_add(cx, dx), PX, -1) == zero
+        oky = t_add(t_add(cy, dy), PY, -1) == zero
+        if not (okx and oky):
+            bad.append(f"{m}: centre ({show(cx)}, {show(cy)}) puts the {vpart.lower()}-{hpart.lower()} point at ({show(t_add(cx, dx))}, {show(t_add(cy, dy))}), not at the pivot")
+    rep.check(not bad, "C18.W6", "IRectTransform.center_pivot", f.loc, found="; ".join(bad[:3]) or f"all {n} alignments agree with left/right/top/bot_pivot", required="centre + offset of the named side == pivot",
+              what="the centre of an aligned rectangle disagrees with the side pivots of the same class: blocks are shifted by their own width / height (overlap tests and rows go wrong): " + "; ".join(bad[:2]),
+              detail="center")
 
 
 # ---------------------------------------------------------------------------------------------
